@@ -17,8 +17,12 @@ import (
 	"fmt"
 	"io"
 	"math/big"
+	"os"
+	"sort"
 	"strings"
 	"testing"
+
+	"seehuhn.de/go/xmp"
 )
 
 var isoPad = []byte{0x28, 0xBF, 0x4E, 0x5E, 0x4E, 0x75, 0x8A, 0x41, 0x64, 0x00, 0x4E, 0x56, 0xFF, 0xFA, 0x01, 0x08,
@@ -728,6 +732,1085 @@ func TestB2C10ForeignPadding(t *testing.T) {
 			sec.key = nil
 			if _, err := sec.authenticate("wrong"); err == nil {
 				t.Errorf("B2-FAIL foreign-padding V=%d R=%d: wrong password accepted", cfg.V, sec.R)
+			}
+		}
+	}
+	t.Logf("B2-CASES %d", cases)
+}
+
+// ---------------------------------------------------------------------------------------
+// Wider object graphs, option combinations and passwords (C09 and C10), and files encrypted
+// by the independent implementation (C10).
+
+// isoPDFDoc encodes a password in PDFDocEncoding (ISO 32000-2, Annex D.2) for the
+// characters used in this harness.
+func isoPDFDoc(s string) string {
+	var b []byte
+	for _, r := range s {
+		switch {
+		case r == '€': // Euro
+			b = append(b, 0xA0)
+		case r == '•': // bullet
+			b = append(b, 0x80)
+		case r == 'Ł': // Lslash
+			b = append(b, 0x95)
+		case (r >= 0x20 && r < 0x7f) || (r >= 0xA1 && r <= 0xFF && r != 0xAD):
+			b = append(b, byte(r))
+		default:
+			panic("isoPDFDoc: character outside the table of the harness")
+		}
+	}
+	return string(b)
+}
+
+// isoPrep prepares a password for revision R: PDFDocEncoding for revisions 2-4 (Algorithm 2
+// step a), UTF-8 for revision 6 (all passwords used here are fixed points of SASLprep; the
+// cut at 127 bytes is made in authenticate / isoNewHandler).
+func isoPrep(R int, pwd string) string {
+	if R >= 5 {
+		return pwd
+	}
+	return isoPDFDoc(pwd)
+}
+
+// Algorithm 1 step a-d: the key of one object
+func (e *isoEnc) objKey(key []byte, ref Reference) []byte {
+	if e.R >= 5 {
+		return key
+	}
+	h := md5.New()
+	h.Write(key)
+	n, g := ref.Number(), ref.Generation()
+	h.Write([]byte{byte(n), byte(n >> 8), byte(n >> 16), byte(g), byte(g >> 8)})
+	if e.aes {
+		h.Write([]byte("sAlT"))
+	}
+	return h.Sum(nil)[:min(len(key)+5, 16)]
+}
+
+// encrypt is Algorithm 1 / 1.A in the writing direction; iv is used for AES only.
+func (e *isoEnc) encrypt(key []byte, ref Reference, data, iv []byte) []byte {
+	k := e.objKey(key, ref)
+	if !e.aes {
+		return isoRC4(k, data)
+	}
+	pad := 16 - len(data)%16
+	padded := append(append([]byte{}, data...), bytes.Repeat([]byte{byte(pad)}, pad)...)
+	return append(append([]byte{}, iv...), isoAESCBCNoPad(k, iv, padded, false)...)
+}
+
+// c09Seed returns the seed of the randomised parts (VERIF_SEED, default 1).
+func c09Seed() int64 {
+	seed := int64(1)
+	fmt.Sscanf(os.Getenv("VERIF_SEED"), "%d", &seed)
+	return seed
+}
+
+// c10Seeds: one family of documents in the quick tier, four in the thorough tier.
+func c10Seeds() []int64 {
+	seed := c09Seed()
+	if b2Thorough() {
+		return []int64{seed, seed + 1000, seed + 2000, seed + 3000}
+	}
+	return []int64{seed}
+}
+
+type c10Rand struct{ x uint64 }
+
+func c10NewRand(seed int64, salt int) *c10Rand {
+	return &c10Rand{x: uint64(seed)*0x9E3779B97F4A7C15 + uint64(salt)*0xBF58476D1CE4E5B9 + 1}
+}
+
+func (r *c10Rand) next() uint64 {
+	r.x ^= r.x << 13
+	r.x ^= r.x >> 7
+	r.x ^= r.x << 17
+	return r.x
+}
+
+func (r *c10Rand) intn(n int) int { return int((r.next() >> 11) % uint64(n)) }
+
+func (r *c10Rand) bytes(n int) []byte {
+	b := make([]byte, n)
+	for i := range b {
+		b[i] = byte(r.next() >> 23)
+	}
+	return b
+}
+
+// isoNewHandler sets up the Encrypt dictionary entries for a new file (Algorithms 2-5 for
+// revisions 2-4, Algorithms 8-10 for revision 6) and returns the file encryption key.
+// The passwords must be prepared already.
+func isoNewHandler(V, R, keyBytes int, useAES, encMeta bool, user, owner string, P uint32, id0 []byte, rnd *c10Rand) (*isoEnc, []byte) {
+	e := &isoEnc{V: V, R: R, keyBytes: keyBytes, aes: useAES, encMeta: encMeta, P: P, ID0: id0}
+	if R <= 4 {
+		e.O = e.computeO(owner, user)
+		key := e.fileKeyFromUser(user)
+		e.U = e.computeU(key)
+		if R >= 3 {
+			e.U = append(e.U[:16:16], rnd.bytes(16)...) // arbitrary padding
+		}
+		return e, key
+	}
+	cut := func(s string) []byte {
+		if len(s) > 127 {
+			s = s[:127]
+		}
+		return []byte(s)
+	}
+	if owner == "" {
+		owner = user
+	}
+	key := rnd.bytes(32)
+	u, o := cut(user), cut(owner)
+	salts := rnd.bytes(32)
+	e.U = append(append(isoHash2B(u, salts[0:8], nil), salts[0:8]...), salts[8:16]...)
+	e.UE = isoAESCBCNoPad(isoHash2B(u, salts[8:16], nil), make([]byte, 16), key, false)
+	e.O = append(append(isoHash2B(o, salts[16:24], e.U), salts[16:24]...), salts[24:32]...)
+	e.OE = isoAESCBCNoPad(isoHash2B(o, salts[24:32], e.U), make([]byte, 16), key, false)
+	pp := []byte{byte(P), byte(P >> 8), byte(P >> 16), byte(P >> 24), 0xff, 0xff, 0xff, 0xff, 'T', 'a', 'd', 'b'}
+	if !encMeta {
+		pp[8] = 'F'
+	}
+	pp = append(pp, rnd.bytes(4)...)
+	blk, _ := aes.NewCipher(key)
+	e.Perms = make([]byte, 16)
+	blk.Encrypt(e.Perms, pp)
+	return e, key
+}
+
+// isoItem is one indirect object of a file written by the independent implementation.
+type isoItem struct {
+	ref      Reference
+	obj      Object // for streams: the dictionary without /Length
+	data     []byte
+	isStream bool
+	plain    bool // the data is exempt from encryption (metadata with /EncryptMetadata false, /Crypt /Identity)
+}
+
+func isoSerialize(b *bytes.Buffer, o Object, encStr func([]byte) []byte) {
+	switch x := o.(type) {
+	case nil:
+		b.WriteString("null")
+	case Boolean:
+		fmt.Fprintf(b, "%v", bool(x))
+	case Integer:
+		fmt.Fprintf(b, "%d", int64(x))
+	case Name:
+		b.WriteString("/" + string(x))
+	case String:
+		fmt.Fprintf(b, "<%x>", encStr([]byte(x)))
+	case Reference:
+		fmt.Fprintf(b, "%d %d R", x.Number(), x.Generation())
+	case Array:
+		b.WriteString("[")
+		for i, el := range x {
+			if i > 0 {
+				b.WriteString(" ")
+			}
+			isoSerialize(b, el, encStr)
+		}
+		b.WriteString("]")
+	case Dict:
+		b.WriteString("<<")
+		for _, k := range x.SortedKeys() {
+			b.WriteString("/" + string(k) + " ")
+			isoSerialize(b, x[k], encStr)
+			b.WriteString("\n")
+		}
+		b.WriteString(">>")
+	default:
+		panic(fmt.Sprintf("isoSerialize: %T", o))
+	}
+}
+
+// isoBuild writes a complete file with a classic cross-reference table.
+func (e *isoEnc) build(header string, key []byte, items []isoItem, root Reference, id1 []byte, rnd *c10Rand) []byte {
+	var b bytes.Buffer
+	b.WriteString("%PDF-" + header + "\n%\xe2\xe3\xcf\xd3\n")
+	offs := map[uint32]int{}
+	gens := map[uint32]uint16{}
+	var nums []int
+	for _, it := range items {
+		offs[it.ref.Number()] = b.Len()
+		gens[it.ref.Number()] = it.ref.Generation()
+		nums = append(nums, int(it.ref.Number()))
+		fmt.Fprintf(&b, "%d %d obj\n", it.ref.Number(), it.ref.Generation())
+		encStr := func(s []byte) []byte { return e.encrypt(key, it.ref, s, rnd.bytes(16)) }
+		if !it.isStream {
+			isoSerialize(&b, it.obj, encStr)
+		} else {
+			body := it.data
+			if !it.plain {
+				body = e.encrypt(key, it.ref, it.data, rnd.bytes(16))
+			}
+			d := Dict{}
+			for k, v := range it.obj.(Dict) {
+				d[k] = v
+			}
+			d["Length"] = Integer(len(body))
+			isoSerialize(&b, d, encStr)
+			b.WriteString("\nstream\n")
+			b.Write(body)
+			b.WriteString("\nendstream")
+		}
+		b.WriteString("\nendobj\n")
+	}
+	sort.Ints(nums)
+	xpos := b.Len()
+	b.WriteString("xref\n0 1\n0000000000 65535 f\r\n")
+	for i := 0; i < len(nums); {
+		j := i
+		for j+1 < len(nums) && nums[j+1] == nums[j]+1 {
+			j++
+		}
+		fmt.Fprintf(&b, "%d %d\n", nums[i], j-i+1)
+		for k := i; k <= j; k++ {
+			fmt.Fprintf(&b, "%010d %05d n\r\n", offs[uint32(nums[k])], gens[uint32(nums[k])])
+		}
+		i = j + 1
+	}
+	enc := Dict{"Filter": Name("Standard"), "V": Integer(e.V), "R": Integer(e.R), "O": String(e.O), "U": String(e.U), "P": Integer(int32(e.P))}
+	if e.V >= 2 {
+		enc["Length"] = Integer(e.keyBytes * 8)
+	}
+	if e.V >= 4 {
+		cfm := Name("V2")
+		if e.aes {
+			cfm = "AESV2"
+			if e.V == 5 {
+				cfm = "AESV3"
+			}
+		}
+		enc["CF"] = Dict{"StdCF": Dict{"Type": Name("CryptFilter"), "CFM": cfm, "AuthEvent": Name("DocOpen"), "Length": Integer(e.keyBytes)}}
+		enc["StmF"], enc["StrF"] = Name("StdCF"), Name("StdCF")
+		if !e.encMeta {
+			enc["EncryptMetadata"] = Boolean(false)
+		}
+	}
+	if e.R >= 5 {
+		enc["OE"], enc["UE"], enc["Perms"] = String(e.OE), String(e.UE), String(e.Perms)
+	}
+	trailer := Dict{"Size": Integer(nums[len(nums)-1] + 1), "Root": root, "Encrypt": enc, "ID": Array{String(e.ID0), String(id1)}}
+	b.WriteString("trailer\n")
+	isoSerialize(&b, trailer, func(s []byte) []byte { return s })
+	fmt.Fprintf(&b, "\nstartxref\n%d\n%%%%EOF\n", xpos)
+	return b.Bytes()
+}
+
+const c10MetaNS = "http://ns.adobe.com/pdf/1.3/"
+
+func c10Packet(marker string) *xmp.Packet {
+	p := xmp.NewPacket()
+	if err := p.SetValue(c10MetaNS, "Keywords", xmp.NewText(marker)); err != nil {
+		panic(err)
+	}
+	return p
+}
+
+func c10Keywords(p *xmp.Packet) string {
+	if p == nil {
+		return "<no packet>"
+	}
+	v, err := xmp.PacketGetValue[xmp.Text](p, c10MetaNS, "Keywords")
+	if err != nil {
+		return "<" + err.Error() + ">"
+	}
+	return v.V
+}
+
+// the password pairs of the wide tests; long selects those for revision 6 only
+func c10Passwords(v Version) [][2]string {
+	pw := [][2]string{{"user", "owner"}, {"", "owner"}, {"only-user", ""},
+		{"üñí€", "öwner•Ł"},
+		{strings.Repeat("p", 31) + "étail", "a-rather-long-owner-password-beyond-32-bytes-0123456789"}}
+	if v >= V2_0 {
+		a := func(n int) string { return strings.Repeat("a", n) }
+		pw = append(pw,
+			[2]string{a(126) + "étail", "owner"},            // 2-byte character across the cut
+			[2]string{"user", a(125) + "€zz"},               // 3-byte character, 2 bytes kept
+			[2]string{a(126) + "€", a(124) + "\U00020000x"}, // 3-byte, 1 byte kept; 4-byte, 3 kept
+			[2]string{a(125) + "é", a(127) + "é"},           // exactly 127 bytes; cut on a boundary
+		)
+	}
+	return pw
+}
+
+type c10Stream struct {
+	ref      Reference
+	dict     Dict
+	data     []byte
+	identity bool
+	flate    bool
+}
+
+type c10Doc struct {
+	desc     string
+	bytes    []byte
+	version  Version
+	user     string
+	owner    string
+	perm     Perm
+	objects  map[Reference]Object
+	order    []Reference
+	streams  []c10Stream
+	metaMode int // 0: no metadata, 1: encrypted, 2: plain text (/EncryptMetadata false)
+}
+
+const c10MetaMarker = "B2META keywords of the document"
+
+// c10Text returns n bytes of recognisable secret text.
+func c10Text(n, salt int) []byte {
+	s := fmt.Sprintf("SECRET%d:", salt)
+	for len(s) < n {
+		s += "abcdefghijklmnopqrstuvwxyz"
+	}
+	return []byte(s[:n])
+}
+
+// c10Write writes an encrypted document through the library: strings of every length
+// around the AES block size (among them the empty string) in arrays, dictionaries, as
+// top-level objects, in stream dictionaries and in compressed objects; streams of such
+// lengths; streams exempt from encryption (/Crypt /Identity) with strings in their
+// dictionaries; non-zero generations and (if high) an object number beyond 65535; document
+// metadata absent, encrypted or in plain text.
+func c10Write(v Version, user, owner string, perm Perm, metaMode int, high bool, variant int, seed int64) (*c10Doc, error) {
+	rnd := c10NewRand(seed, variant)
+	doc := &c10Doc{version: v, user: user, owner: owner, perm: perm, objects: map[Reference]Object{}, metaMode: metaMode}
+	doc.desc = fmt.Sprintf("v=%v user=%.12q(%d) owner=%.12q(%d) perm=%07b meta=%d variant=%d", v, user, len(user), owner, len(owner), perm, metaMode, variant)
+	// TODO-DEFECT (suspected, belongs to C02 rather than C09/C10): with a cross-reference
+	// STREAM a small document holding one object number beyond about 20000 is refused by the
+	// library's own Reader ("invalid cross-reference table": the Writer emits all entries up
+	// to /Size, they compress to a few hundred bytes, and checkXRefStreamDict allows only
+	// 8192 + 32 * (stored length) entries).  The documents with a high object number are
+	// therefore written with a classic table (HumanReadable) in every version.
+	opt := &WriterOptions{UserPassword: user, OwnerPassword: owner, UserPermissions: perm, HumanReadable: high}
+	if metaMode > 0 {
+		opt.DocumentMetadata = &MetadataStream{Data: c10Packet(c10MetaMarker), Plaintext: metaMode == 2}
+	}
+	var buf bytes.Buffer
+	w, err := NewWriter(&buf, v, opt)
+	if err != nil {
+		return nil, fmt.Errorf("NewWriter: %w", err)
+	}
+	put := func(ref Reference, obj Object) error {
+		doc.objects[ref] = obj
+		doc.order = append(doc.order, ref)
+		return w.Put(ref, obj)
+	}
+	nsalt := 0
+	text := func(n int) String { nsalt++; return String(c10Text(n, nsalt)) }
+	stream := func(ref Reference, dict Dict, data []byte, identity, flate, inDict bool) error {
+		var filters []Filter
+		given := dict
+		if identity && inDict {
+			// the filter is named by the caller's dictionary already
+			given = Dict{"Filter": Name("Crypt")}
+			for k, x := range dict {
+				given[k] = x
+			}
+		} else if identity {
+			filters = append(filters, FilterCryptIdentity{})
+		}
+		if flate {
+			filters = append(filters, FilterFlate{})
+		}
+		sw, err := w.OpenStream(ref, given, filters...)
+		if err != nil {
+			return fmt.Errorf("OpenStream: %w", err)
+		}
+		if rnd.intn(3) == 0 {
+			if err := put(w.Alloc(), Array{text(9 + rnd.intn(30)), String("")}); err != nil {
+				return err
+			}
+		}
+		for off := 0; off < len(data); {
+			n := min(1+rnd.intn(700), len(data)-off)
+			if _, err := sw.Write(data[off : off+n]); err != nil {
+				return err
+			}
+			off += n
+		}
+		if err := sw.Close(); err != nil {
+			return fmt.Errorf("stream close: %w", err)
+		}
+		doc.streams = append(doc.streams, c10Stream{ref, dict, data, identity, flate})
+		return nil
+	}
+	sdict := func() Dict {
+		return Dict{"Note": text(8 + rnd.intn(30)), "Empty": String(""), "Deep": Dict{"A": Array{String(""), text(16)}}}
+	}
+	gen := func() uint16 {
+		return []uint16{1, 255, 256, 65534, uint16(1 + rnd.intn(65534))}[rnd.intn(5)]
+	}
+	visible := []byte("VISIBLE by request: the data of this stream is exempt from encryption\n")
+	if v >= V1_5 && variant%2 == 0 {
+		// an exempt stream as the first object of the body
+		if err := stream(w.Alloc(), sdict(), visible, true, false, false); err != nil {
+			return nil, err
+		}
+	}
+	pages := w.Alloc()
+	w.GetMeta().Catalog.Pages = pages
+	if err := put(pages, Dict{"Type": Name("Pages"), "Kids": Array{}, "Count": Integer(0)}); err != nil {
+		return nil, err
+	}
+	var arr Array
+	for _, n := range []int{0, 1, 15, 16, 17, 31, 32, 33, 47 + rnd.intn(40)} {
+		arr = append(arr, text(n))
+	}
+	if err := put(w.Alloc(), arr); err != nil {
+		return nil, err
+	}
+	if err := put(w.Alloc(), Dict{"E": String(""), "D": Dict{"E2": String(""), "T": text(20)}, "A": Array{String(""), String("x"), Array{String("")}}}); err != nil {
+		return nil, err
+	}
+	if err := put(w.Alloc(), String("")); err != nil {
+		return nil, err
+	}
+	same := String("SECRET the same plaintext in two objects")
+	for i := 0; i < 2; i++ {
+		if err := put(w.Alloc(), Array{same}); err != nil {
+			return nil, err
+		}
+	}
+	for i := 0; i < 3; i++ {
+		g := gen()
+		if err := put(NewReference(w.Alloc().Number(), g), Dict{"Gen": Integer(g), "S": text(12 + rnd.intn(8)), "E": String("")}); err != nil {
+			return nil, err
+		}
+	}
+	// compressed objects (plain objects in versions without object streams)
+	cr := []Reference{w.Alloc(), w.Alloc(), w.Alloc()}
+	co := []Object{Dict{"S": text(18 + rnd.intn(20))}, String(""), Array{String(""), text(16)}}
+	if err := w.WriteCompressed(cr, co...); err != nil {
+		return nil, fmt.Errorf("WriteCompressed: %w", err)
+	}
+	for i, r := range cr {
+		doc.objects[r] = co[i]
+		doc.order = append(doc.order, r)
+	}
+	for i, n := range []int{0, 1, 15, 16, 17, 1000 + rnd.intn(100)} {
+		ref := w.Alloc()
+		if i%2 == 1 {
+			ref = NewReference(ref.Number(), gen())
+		}
+		if err := stream(ref, sdict(), c10Text(n, 100+i), false, i%3 == 2 && v >= V1_2, false); err != nil {
+			return nil, err
+		}
+	}
+	if v >= V1_5 {
+		if err := stream(NewReference(w.Alloc().Number(), gen()), sdict(), visible, true, false, false); err != nil {
+			return nil, err
+		}
+		if err := stream(w.Alloc(), sdict(), bytes.Repeat(visible, 20), true, true, false); err != nil {
+			return nil, err
+		}
+		if err := stream(w.Alloc(), sdict(), visible[:rnd.intn(len(visible))], true, false, true); err != nil {
+			return nil, err
+		}
+	}
+	if high {
+		ref := NewReference(uint32(0x10203+rnd.intn(1000)), 0x0405)
+		if err := put(ref, Array{text(16), String(""), text(5)}); err != nil {
+			return nil, err
+		}
+		if err := stream(NewReference(ref.Number()+1, 0x0607), sdict(), c10Text(40, 200), false, false, false); err != nil {
+			return nil, err
+		}
+	}
+	if err := w.Close(); err != nil {
+		return nil, fmt.Errorf("Close: %w", err)
+	}
+	doc.bytes = buf.Bytes()
+	return doc, nil
+}
+
+// c10Plan lists the documents of the wide tests.
+func c10Plan(f func(v Version, user, owner string, perm Perm, metaMode int, high bool, variant int)) {
+	perms := []Perm{PermAll, PermCopy | PermPrint | PermPrintDegraded, 0, PermModify | PermAnnotate, PermForms | PermAssemble | PermCopy}
+	variant := 0
+	for _, v := range []Version{V1_1, V1_3, V1_4, V1_5, V1_6, V1_7, V2_0} {
+		modes := []int{0}
+		if v >= V1_4 {
+			modes = append(modes, 1)
+		}
+		if v >= V1_6 {
+			modes = append(modes, 2)
+		}
+		for i, pw := range c10Passwords(v) {
+			for k, mode := range modes {
+				// every metadata mode with the first two password pairs, one mode with the others
+				if !b2Thorough() && i >= 2 && k != (i+variant)%len(modes) {
+					continue
+				}
+				variant++
+				f(v, pw[0], pw[1], perms[variant%len(perms)], mode, i == 0 && k == 0, variant)
+			}
+		}
+	}
+}
+
+// TestB2C09Graph opens the documents of c10Write with the user password, the owner
+// password and wrong passwords and compares every object, stream and the metadata.
+func TestB2C09Graph(t *testing.T) {
+	cases := 0
+	for _, seed := range c10Seeds() {
+		c10Plan(func(v Version, user, owner string, perm Perm, metaMode int, high bool, variant int) {
+			cases++
+			doc, err := c10Write(v, user, owner, perm, metaMode, high, variant, seed)
+			if err != nil {
+				t.Errorf("B2-FAIL write-error v=%v user=%.12q meta=%d: %v", v, user, metaMode, err)
+				return
+			}
+			desc, data := doc.desc, doc.bytes
+			open := func(p string) (*Reader, error) {
+				return NewReader(bytes.NewReader(data), int64(len(data)), &ReaderOptions{Password: p})
+			}
+			content := func(r *Reader) error {
+				for _, ref := range doc.order {
+					obj, err := r.Get(ref, true)
+					if err != nil || !c10Same(obj, doc.objects[ref]) {
+						return fmt.Errorf("object %v: %s %v", ref, b2Short(obj), err)
+					}
+				}
+				for _, s := range doc.streams {
+					so, err := r.Get(s.ref, true)
+					stm, ok := so.(*Stream)
+					if err != nil || !ok {
+						return fmt.Errorf("stream %v: %T %v", s.ref, so, err)
+					}
+					for k, want := range s.dict {
+						if !c10Same(stm.Dict[k], want) {
+							return fmt.Errorf("stream %v dictionary /%s: %s", s.ref, k, b2Short(stm.Dict[k]))
+						}
+					}
+					rd, err := DecodeStream(r, nil, stm)
+					if err != nil {
+						return fmt.Errorf("stream %v: %v", s.ref, err)
+					}
+					body, err := io.ReadAll(rd)
+					if err != nil || !bytes.Equal(body, s.data) {
+						return fmt.Errorf("stream %v data: %d bytes, want %d, %v", s.ref, len(body), len(s.data), err)
+					}
+				}
+				md := r.GetMeta().Catalog.Metadata
+				if (md != nil) != (metaMode > 0) {
+					return fmt.Errorf("metadata present: %v", md != nil)
+				}
+				if md != nil && c10Keywords(md.Data) != c10MetaMarker {
+					return fmt.Errorf("metadata: %q", c10Keywords(md.Data))
+				}
+				return nil
+			}
+			closure := perm
+			if perm&PermPrint != 0 {
+				closure |= PermPrintDegraded
+			}
+			if perm&PermAnnotate != 0 {
+				closure |= PermForms
+			}
+			if perm&PermModify != 0 {
+				closure |= PermAssemble
+			}
+			if r, err := open(user); err != nil {
+				t.Errorf("B2-FAIL user-open %s: %v", desc, err)
+			} else {
+				if err := content(r); err != nil {
+					t.Errorf("B2-FAIL user-content %s: %v", desc, err)
+				}
+				if got := r.GetMeta().Permissions; owner != "" && owner != user && user != "" && got != closure {
+					t.Errorf("B2-FAIL user-permissions %s: got %07b want %07b", desc, got, closure)
+				}
+			}
+			if owner != "" {
+				if r, err := open(owner); err != nil {
+					t.Errorf("B2-FAIL owner-open %s: %v", desc, err)
+				} else {
+					if err := content(r); err != nil {
+						t.Errorf("B2-FAIL owner-content %s: %v", desc, err)
+					}
+					if got := r.GetMeta().Permissions; user != "" && got != PermAll {
+						t.Errorf("B2-FAIL owner-permissions %s: %07b", desc, got)
+					}
+				}
+			}
+			if user != "" {
+				// passwords which differ from both after preparation (32 PDFDocEncoding bytes, 127 UTF-8 bytes)
+				cut := 32
+				if v >= V2_0 {
+					cut = 127
+				}
+				ru := []rune(user)
+				wrongs := []string{"", "wrong", "x" + user, string(ru[1:]), string(ru[:len(ru)-1])}
+				if ro := []rune(owner); len(ro) > 1 {
+					wrongs = append(wrongs, string(ro[:len(ro)-1]))
+				}
+				for _, wrong := range wrongs {
+					if wrong == owner || wrong == user || len(wrong) >= cut {
+						continue
+					}
+					r, err := open(wrong)
+					var ae *AuthenticationError
+					if err == nil || !errors.As(err, &ae) {
+						t.Errorf("B2-FAIL wrong-password-accepted %s password=%.12q(%d): reader=%v err=%v", desc, wrong, len(wrong), r != nil, err)
+					}
+				}
+				// a password equal to the user password in all the bytes which count
+				if pre := isoPrep(map[bool]int{false: 4, true: 6}[v >= V2_0], user); len(pre) >= cut {
+					if _, err := open(user + "-more"); err != nil {
+						t.Errorf("B2-FAIL password-beyond-cut %s: %v", desc, err)
+					}
+				}
+			}
+		})
+	}
+	t.Logf("B2-CASES %d", cases)
+}
+
+// c10Norm returns a copy of o in which empty strings are represented uniformly (the
+// properties speak of string values; Equal distinguishes a nil String from an empty one).
+func c10Norm(o Object) Object {
+	switch x := o.(type) {
+	case String:
+		if len(x) == 0 {
+			return String{}
+		}
+		return x
+	case Array:
+		out := make(Array, len(x))
+		for i, el := range x {
+			out[i] = c10Norm(el)
+		}
+		return out
+	case Dict:
+		out := make(Dict, len(x))
+		for k, el := range x {
+			out[k] = c10Norm(el)
+		}
+		return out
+	}
+	return o
+}
+
+func c10Same(a, b Object) bool { return Equal(c10Norm(a), c10Norm(b)) }
+
+// isoShortKeyR3 marks the one configuration in which the library knowingly departs from the
+// text of the standard (recorded as a finding in /verif/known-findings.txt, kind owner-short-key-r3): in
+// Algorithm 3 step (c) / Algorithm 7 step (a) the 50 MD5 rounds of revisions 3 and 4 hash
+// the whole 16-byte digest; crypto.go (computeO, authenticateOwner) hashes only its first
+// Length/8 bytes ("The spec does not mention the truncation, but this seems to be required
+// anyway").  The two agree for 128-bit keys.  For revision 3 with 40..120-bit keys (what the
+// Writer produces for PDF 1.1-1.3 when the permissions need revision 3) the owner password of
+// a file written by the library is refused by the independent implementation, and the owner
+// password of a file written by the independent implementation is refused by the Reader.
+func isoShortKeyR3(R, keyBytes int) bool { return R >= 3 && R <= 4 && keyBytes < 16 }
+
+func c10LeadingCrypt(d Dict) bool {
+	switch f := d["Filter"].(type) {
+	case Name:
+		return f == "Crypt"
+	case Array:
+		return len(f) > 0 && f[0] == Name("Crypt")
+	}
+	return false
+}
+
+func c10Inflate(data []byte) ([]byte, error) {
+	zr, err := zlib.NewReader(bytes.NewReader(data))
+	if err != nil {
+		return nil, err
+	}
+	return io.ReadAll(zr)
+}
+
+// TestB2C10Graph: the independent implementation authenticates both passwords of the
+// documents of c10Write (passwords prepared as the standard demands) and decrypts every
+// string and stream of EVERY object of the file, with strict checks of the AES format (IV,
+// whole blocks, PKCS#7 padding also for empty strings); data exempt from encryption is
+// stored as written while the strings of its dictionary are encrypted under the stream's key.
+func TestB2C10Graph(t *testing.T) {
+	cases := 0
+	for _, seed := range c10Seeds() {
+		c10Plan(func(v Version, user, owner string, perm Perm, metaMode int, high bool, variant int) {
+			cases++
+			doc, err := c10Write(v, user, owner, perm, metaMode, high, variant, seed)
+			if err != nil {
+				t.Errorf("B2-FAIL write-error v=%v user=%.12q meta=%d: %v", v, user, metaMode, err)
+				return
+			}
+			desc := doc.desc
+			e, fi, err := isoParse(doc.bytes)
+			if err != nil || e == nil {
+				t.Errorf("B2-FAIL iso-parse %s: %v", desc, err)
+				return
+			}
+			if e.encMeta != (metaMode != 2) {
+				t.Errorf("B2-FAIL iso-encrypt-metadata %s: /EncryptMetadata %v", desc, e.encMeta)
+			}
+			var key []byte
+			for i, p := range []string{user, owner} {
+				if p == "" && i == 1 {
+					continue
+				}
+				k, _, ok := e.authenticate(isoPrep(e.R, p))
+				if !ok && i == 1 && isoShortKeyR3(e.R, e.keyBytes) {
+					// recorded finding (known-findings.txt): see isoShortKeyR3
+					t.Errorf("B2-FAIL owner-short-key-r3 %s: the owner password of the written file is refused by Algorithm 7 as printed (R=%d, %d-bit key)", desc, e.R, 8*e.keyBytes)
+					continue
+				}
+				if !ok {
+					t.Errorf("B2-FAIL iso-authenticate %s password #%d R=%d", desc, i, e.R)
+					continue
+				}
+				if key != nil && !bytes.Equal(key, k) {
+					t.Errorf("B2-FAIL iso-key-mismatch %s", desc)
+				}
+				key = k
+			}
+			if _, _, ok := e.authenticate("wrong"); ok && user != "" {
+				t.Errorf("B2-FAIL iso-wrong-accepted %s", desc)
+			}
+			if key == nil {
+				return
+			}
+			if e.R >= 6 {
+				blk, _ := aes.NewCipher(key)
+				pp := make([]byte, 16)
+				blk.Decrypt(pp, e.Perms)
+				flag := byte('T')
+				if !e.encMeta {
+					flag = 'F'
+				}
+				if string(pp[9:12]) != "adb" || pp[8] != flag || pp[0] != byte(e.P) || pp[1] != byte(e.P>>8) || pp[2] != byte(e.P>>16) || pp[3] != byte(e.P>>24) {
+					t.Errorf("B2-FAIL iso-perms %s: %x", desc, pp)
+				}
+			}
+			if bytes.Contains(doc.bytes, []byte("SECRET")) || (metaMode == 1 && bytes.Contains(doc.bytes, []byte("B2META"))) {
+				t.Errorf("B2-FAIL plaintext-leak %s", desc)
+			}
+			if metaMode == 2 && !bytes.Contains(doc.bytes, []byte(c10MetaMarker)) {
+				t.Errorf("B2-FAIL plaintext-metadata-not-plain %s", desc)
+			}
+			known := map[Reference]*c10Stream{}
+			for i := range doc.streams {
+				known[doc.streams[i].ref] = &doc.streams[i]
+			}
+			seen := map[Reference]bool{}
+			ivs := map[string]bool{}
+			ciphertexts := map[string]Reference{}
+			var objstms [][]byte
+			nfail := 0
+			fail := func(format string, a ...any) {
+				if nfail++; nfail <= 4 {
+					t.Errorf("B2-FAIL "+format, a...)
+				}
+			}
+			noteIV := func(ct []byte, ref Reference) {
+				if e.aes && len(ct) >= 16 {
+					if ivs[string(ct[:16])] {
+						fail("iv-reuse %s ref=%v", desc, ref)
+					}
+					ivs[string(ct[:16])] = true
+				}
+			}
+			// strs decrypts the strings of one object under the key of ref and compares them with want
+			strs := func(ref Reference, raw, want Object, haveWant bool, what string) {
+				var ws, gs []String
+				c09Strings(raw, func(s String) { gs = append(gs, s) })
+				if haveWant {
+					c09Strings(want, func(s String) { ws = append(ws, s) })
+					if len(ws) != len(gs) {
+						fail("iso-shape %s %s ref=%v", desc, what, ref)
+						return
+					}
+				}
+				for i, ct := range gs {
+					pt, err := e.decrypt(key, ref, ct)
+					if err != nil {
+						fail("iso-string-format %s %s ref=%v string #%d of %d bytes: %v", desc, what, ref, i, len(ct), err)
+						continue
+					}
+					if e.aes && len(ct) != 16+(len(pt)/16+1)*16 {
+						fail("iso-string-format %s %s ref=%v: %d bytes for %d", desc, what, ref, len(ct), len(pt))
+					}
+					if haveWant && !bytes.Equal(pt, ws[i]) {
+						fail("iso-string %s %s ref=%v want=%.20q got=%.20q", desc, what, ref, ws[i], pt)
+					}
+					noteIV(ct, ref)
+					if prev, dup := ciphertexts[string(ct)]; dup && prev != ref && len(pt) > 0 {
+						fail("equal-ciphertexts %s refs %v %v", desc, prev, ref)
+					}
+					ciphertexts[string(ct)] = ref
+				}
+			}
+			for _, sect := range fi.Sections {
+				for _, fo := range sect.Objects {
+					ref := fo.Reference
+					raw, err := fi.Read(fo)
+					if err != nil {
+						fail("iso-read %s ref=%v: %v", desc, ref, err)
+						continue
+					}
+					seen[ref] = true
+					stm, isStream := raw.(*Stream)
+					if !isStream {
+						want, ok := doc.objects[ref]
+						strs(ref, raw, want, ok, "object")
+						continue
+					}
+					if stm.Dict["Type"] == Name("XRef") {
+						continue // never encrypted (7.5.8.2)
+					}
+					s := known[ref]
+					if s != nil {
+						strs(ref, stm.Dict, s.dict, true, "stream dictionary")
+					} else {
+						strs(ref, stm.Dict, nil, false, "stream dictionary")
+					}
+					body, err := io.ReadAll(io.NewSectionReader(stm.data, stm.start, stm.length))
+					if err != nil {
+						fail("iso-stream %s ref=%v: %v", desc, ref, err)
+						continue
+					}
+					isMeta := stm.Dict["Type"] == Name("Metadata")
+					exempt := c10LeadingCrypt(stm.Dict) || (isMeta && !e.encMeta)
+					if s != nil && s.identity != exempt {
+						fail("iso-exemption %s ref=%v: exempt=%v", desc, ref, exempt)
+						continue
+					}
+					pt := body
+					if !exempt {
+						noteIV(body, ref)
+						pt, err = e.decrypt(key, ref, body)
+						if err != nil {
+							fail("iso-stream-format %s ref=%v (%d bytes): %v", desc, ref, len(body), err)
+							continue
+						}
+					}
+					hasFlate := false
+					switch f := stm.Dict["Filter"].(type) {
+					case Name:
+						hasFlate = f == "FlateDecode"
+					case Array:
+						hasFlate = len(f) > 0 && f[len(f)-1] == Name("FlateDecode")
+					}
+					if hasFlate && stm.Dict["DecodeParms"] == nil || (hasFlate && exempt) {
+						if pt, err = c10Inflate(pt); err != nil {
+							fail("iso-stream-inflate %s ref=%v: %v", desc, ref, err)
+							continue
+						}
+					}
+					switch {
+					case s != nil:
+						if s.flate != hasFlate || !bytes.Equal(pt, s.data) {
+							fail("iso-stream-data %s ref=%v len(want)=%d len(got)=%d", desc, ref, len(s.data), len(pt))
+						}
+					case isMeta:
+						if !bytes.Contains(pt, []byte(c10MetaMarker)) {
+							fail("iso-metadata %s ref=%v: marker missing in %d bytes", desc, ref, len(pt))
+						}
+					case stm.Dict["Type"] == Name("ObjStm"):
+						objstms = append(objstms, pt)
+					}
+				}
+			}
+			for _, s := range doc.streams {
+				if !seen[s.ref] {
+					fail("iso-stream-missing %s ref=%v", desc, s.ref)
+				}
+			}
+			// objects stored in object streams are not encrypted individually
+			for _, ref := range doc.order {
+				if seen[ref] {
+					continue
+				}
+				if v < V1_5 || len(objstms) == 0 {
+					fail("iso-object-missing %s ref=%v", desc, ref)
+					continue
+				}
+				c09Strings(doc.objects[ref], func(s String) {
+					found := false
+					for _, body := range objstms {
+						found = found || bytes.Contains(body, s)
+					}
+					if !found {
+						fail("iso-objstm-string %s ref=%v %.20q", desc, ref, s)
+					}
+				})
+			}
+		})
+	}
+	t.Logf("B2-CASES %d", cases)
+}
+
+// TestB2C10Foreign: files encrypted by the independent implementation (all revisions and
+// ciphers the reader accepts, /EncryptMetadata on and off, /U with arbitrary padding,
+// passwords up to and beyond the preparation limits, non-zero generations, an object number
+// beyond 65535, empty strings, an exempt stream with strings in its dictionary) open in
+// the Reader with either password and give back every string and stream.
+func TestB2C10Foreign(t *testing.T) {
+	cases := 0
+	seed := c09Seed()
+	type config struct {
+		header        string
+		V, R, keyBits int
+		aes, encMeta  bool
+	}
+	configs := []config{
+		{"1.3", 1, 2, 40, false, true},
+		{"1.4", 1, 3, 40, false, true},
+		{"1.4", 2, 3, 128, false, true},
+		{"1.4", 2, 3, 40 + 8*int(seed%11), false, true},
+		{"1.5", 4, 4, 128, false, true},
+		{"1.5", 4, 4, 128, false, false},
+		{"1.6", 4, 4, 128, true, true},
+		{"1.7", 4, 4, 128, true, false},
+		{"2.0", 5, 6, 256, true, true},
+		{"2.0", 5, 6, 256, true, false},
+	}
+	for ci, cfg := range configs {
+		v := V1_7
+		if cfg.R >= 5 {
+			v = V2_0
+		}
+		pws := c10Passwords(v)
+		for pi, pw := range pws {
+			if !b2Thorough() && pi >= 2 && (pi+ci+int(seed))%3 != 0 && len(pw[0])+len(pw[1]) < 200 {
+				continue
+			}
+			cases++
+			rnd := c10NewRand(seed, 1000+ci*16+pi)
+			// all permissions, or: printing (bits 3, 12) and copying (bit 5) only
+			P := uint32(0xFFFFFFFC)
+			if (ci+pi)%2 == 1 {
+				P = 0xFFFFF0C0 | 1<<2 | 1<<4 | 1<<11
+			}
+			user, owner := isoPrep(cfg.R, pw[0]), isoPrep(cfg.R, pw[1])
+			id0 := rnd.bytes(16)
+			e, key := isoNewHandler(cfg.V, cfg.R, cfg.keyBits/8, cfg.aes, cfg.encMeta, user, owner, P, id0, rnd)
+			desc := fmt.Sprintf("V=%d R=%d bits=%d aes=%v encMeta=%v user=%.12q(%d) owner=%.12q(%d) P=%08x", cfg.V, cfg.R, cfg.keyBits, cfg.aes, cfg.encMeta, pw[0], len(pw[0]), pw[1], len(pw[1]), P)
+
+			nsalt := 0
+			text := func(n int) String { nsalt++; return String(c10Text(n, nsalt)) }
+			root, pages, meta := NewReference(1, 0), NewReference(2, 0), NewReference(3, 0)
+			var xmpData bytes.Buffer
+			if err := c10Packet(c10MetaMarker).Write(&xmpData, nil); err != nil {
+				t.Fatalf("xmp: %v", err)
+			}
+			items := []isoItem{
+				{ref: root, obj: Dict{"Type": Name("Catalog"), "Pages": pages, "Metadata": meta}},
+				{ref: pages, obj: Dict{"Type": Name("Pages"), "Kids": Array{}, "Count": Integer(0)}},
+				{ref: meta, obj: Dict{"Type": Name("Metadata"), "Subtype": Name("XML")}, data: xmpData.Bytes(), isStream: true, plain: cfg.V >= 4 && !cfg.encMeta},
+			}
+			var arr Array
+			for _, n := range []int{0, 1, 15, 16, 17, 31, 32, 33, 47 + rnd.intn(40)} {
+				arr = append(arr, text(n))
+			}
+			items = append(items,
+				isoItem{ref: NewReference(4, 0), obj: arr},
+				isoItem{ref: NewReference(5, uint16(1+rnd.intn(65534))), obj: Dict{"E": String(""), "D": Dict{"T": text(20), "A": Array{String(""), text(3)}}}},
+				isoItem{ref: NewReference(6, 256), obj: String("")},
+				isoItem{ref: NewReference(7, 0), obj: Dict{"Note": text(12), "Empty": String("")}, data: c10Text(1000+rnd.intn(64), 50), isStream: true},
+				isoItem{ref: NewReference(8, 255), obj: Dict{"Note": text(30)}, data: c10Text([]int{0, 15, 16, 17}[rnd.intn(4)], 51), isStream: true},
+				isoItem{ref: NewReference(uint32(0x10203+rnd.intn(1000)), 0x0405), obj: Array{text(16), String("")}},
+			)
+			if cfg.V >= 4 {
+				items = append(items, isoItem{ref: NewReference(9, 0), obj: Dict{"Note": text(21), "Empty": String(""), "Filter": Name("Crypt"), "DecodeParms": Dict{"Type": Name("CryptFilterDecodeParms"), "Name": Name("Identity")}},
+					data: []byte("VISIBLE by request\n"), isStream: true, plain: true})
+			}
+			data := e.build(cfg.header, key, items, root, rnd.bytes(16), rnd)
+
+			// the file must be good by the independent implementation's own reading
+			if e2, _, err := isoParse(data); err != nil || e2 == nil {
+				t.Errorf("B2-FAIL foreign-selfcheck %s: %v", desc, err)
+				continue
+			} else if k, _, ok := e2.authenticate(user); !ok || !bytes.Equal(k, key) {
+				t.Errorf("B2-FAIL foreign-selfcheck %s: user password", desc)
+				continue
+			} else if k, isOwner, ok := e2.authenticate(owner); owner != "" && (!ok || !bytes.Equal(k, key) || (!isOwner && user != "")) {
+				t.Errorf("B2-FAIL foreign-selfcheck %s: owner password", desc)
+				continue
+			}
+
+			check := func(r *Reader) error {
+				for _, it := range items[3:] {
+					obj, err := r.Get(it.ref, true)
+					if err != nil {
+						return fmt.Errorf("object %v: %v", it.ref, err)
+					}
+					if !it.isStream {
+						if !c10Same(obj, it.obj) {
+							return fmt.Errorf("object %v: %s", it.ref, b2Short(obj))
+						}
+						continue
+					}
+					stm, ok := obj.(*Stream)
+					if !ok {
+						return fmt.Errorf("stream %v: %T", it.ref, obj)
+					}
+					for k, want := range it.obj.(Dict) {
+						if !c10Same(stm.Dict[k], want) {
+							return fmt.Errorf("stream %v dictionary /%s: %s", it.ref, k, b2Short(stm.Dict[k]))
+						}
+					}
+					rd, err := DecodeStream(r, nil, stm)
+					if err != nil {
+						return fmt.Errorf("stream %v: %v", it.ref, err)
+					}
+					body, err := io.ReadAll(rd)
+					if err != nil || !bytes.Equal(body, it.data) {
+						return fmt.Errorf("stream %v data: %d bytes, want %d, %v", it.ref, len(body), len(it.data), err)
+					}
+				}
+				if md := r.GetMeta().Catalog.Metadata; md == nil || c10Keywords(md.Data) != c10MetaMarker {
+					return fmt.Errorf("metadata: %v", md != nil)
+				}
+				return nil
+			}
+			open := func(p string) (*Reader, error) {
+				return NewReader(bytes.NewReader(data), int64(len(data)), &ReaderOptions{Password: p})
+			}
+			if r, err := open(pw[0]); err != nil {
+				t.Errorf("B2-FAIL foreign-user-open %s: %v", desc, err)
+			} else {
+				if err := check(r); err != nil {
+					t.Errorf("B2-FAIL foreign-user-content %s: %v", desc, err)
+				}
+				got := r.GetMeta().Permissions
+				if pw[1] != "" && pw[1] != pw[0] && pw[0] != "" {
+					if got&PermCopy == 0 || got&PermPrint == 0 {
+						t.Errorf("B2-FAIL foreign-user-permissions %s: %07b lacks copy or print", desc, got)
+					}
+					if P != 0xFFFFFFFC && (got&PermModify != 0 || got&PermAnnotate != 0) {
+						t.Errorf("B2-FAIL foreign-user-permissions %s: %07b allows modify or annotate", desc, got)
+					}
+				}
+			}
+			if pw[1] != "" {
+				if r, err := open(pw[1]); err != nil && isoShortKeyR3(cfg.R, cfg.keyBits/8) {
+					// recorded finding (known-findings.txt): see isoShortKeyR3
+					t.Errorf("B2-FAIL owner-short-key-r3 %s: the owner password of a file encrypted as printed in Algorithm 3 is refused: %v", desc, err)
+				} else if err != nil {
+					t.Errorf("B2-FAIL foreign-owner-open %s: %v", desc, err)
+				} else {
+					if err := check(r); err != nil {
+						t.Errorf("B2-FAIL foreign-owner-content %s: %v", desc, err)
+					}
+					if got := r.GetMeta().Permissions; pw[0] != "" && got != PermAll {
+						t.Errorf("B2-FAIL foreign-owner-permissions %s: %07b", desc, got)
+					}
+				}
+			}
+			if pw[0] != "" {
+				ru := []rune(pw[0])
+				for _, wrong := range []string{"", "wrong", string(ru[:len(ru)/2]), string(ru[1:])} {
+					r, err := open(wrong)
+					var ae *AuthenticationError
+					if err == nil || !errors.As(err, &ae) {
+						t.Errorf("B2-FAIL foreign-wrong-accepted %s password=%.12q: reader=%v err=%v", desc, wrong, r != nil, err)
+					}
+				}
 			}
 		}
 	}
